@@ -21,15 +21,16 @@ import (
 )
 
 type Case struct {
-	Op   string `json:"op"` // parse | build | points | payload
-	Tag  string `json:"tag,omitempty"`
-	V    uint8  `json:"v,omitempty"`
-	Data string `json:"data,omitempty"` // hex
-	Kind string `json:"kind,omitempty"` // builder
-	Seed uint64 `json:"seed,omitempty"`
-	N    int    `json:"n,omitempty"`   // list length (transactions, commitments, points, wants)
-	Bad  int    `json:"bad,omitempty"` // 1+index of the point replaced by an invalid one (0 = none)
-	Cut  int    `json:"cut,omitempty"` // build, then keep only the first Cut-1 bytes (0 = whole); negative: append -Cut bytes
+	Op    string     `json:"op"` // parse | build | points | payload
+	Tag   string     `json:"tag,omitempty"`
+	V     uint8      `json:"v,omitempty"`
+	Data  string     `json:"data,omitempty"` // hex
+	Kind  string     `json:"kind,omitempty"` // builder
+	Seed  uint64     `json:"seed,omitempty"`
+	N     int        `json:"n,omitempty"`     // list length (transactions, commitments, points, wants)
+	Bad   int        `json:"bad,omitempty"`   // 1+index of the point replaced by an invalid one (0 = none)
+	Inner *InnerCase `json:"inner,omitempty"` // op inner: byte-level inner encoding at a limit
+	Cut   int        `json:"cut,omitempty"`   // build, then keep only the first Cut-1 bytes (0 = whole); negative: append -Cut bytes
 }
 
 // ---- Coq printers -------------------------------------------------------------
@@ -291,7 +292,7 @@ type handle struct {
 }
 
 func (h *handle) SignData(data []byte) crypto.Signature { return h.key.Sign(crypto.Blake3Hash(data)) }
-func (h *handle) BuildGraph() []*p2p.SyncPoint         { return h.points }
+func (h *handle) BuildGraph() []*p2p.SyncPoint          { return h.points }
 
 var keyPool []crypto.Key // valid points, deterministic
 
@@ -876,6 +877,8 @@ func run(c *vh.Ctx, cs Case) {
 		runParse(c, cs, kind, cs.V, data)
 	case "build":
 		runBuild(c, cs)
+	case "inner":
+		runInner(c, cs)
 	case "points":
 		data, _ := hex.DecodeString(cs.Data)
 		runPoints(c, cs, data, nil)
@@ -1229,6 +1232,8 @@ func corpus() []Case {
 func main() {
 	c := vh.Start("C08")
 	c.Rep.Rule = "corpus of builder limits (0/255/256 transactions, 0/1/1024/1025 commitments, invalid point at each position); " +
+		"inner transaction / snapshot encodings assembled at byte level with complete members and counts at limit-1, limit, limit+1 and the next constant " +
+		"(inputs, outputs, keys, references, signature maps, signatures, signers, extra, amount, input index; snapshot transactions / references), inside every carrying message type; " +
 		"directed messages of exactly every parser length guard and one byte either side (built by the real builders, then cut or " +
 		"extended, internal size fields set around the remaining length and near 2^32); every builder on random contents from a " +
 		"per-case seed (1/5 with one point replaced by an off-curve value, 1/6 cut or extended); random bytes behind every type byte " +
@@ -1249,6 +1254,9 @@ func main() {
 		run(c, cs)
 	}
 	for _, cs := range guards(c) {
+		run(c, cs)
+	}
+	for _, cs := range innerCases(c.Tier == "thorough") {
 		run(c, cs)
 	}
 	n := c.Scale(6000, 200000)
